@@ -98,27 +98,35 @@ def shrink(ctx, line, pid_tag):
     best = fails(hay, needle)
     if best is None:
         return line, None
-    budget = 150
+    # chunks first (inputs beyond the matrix limits have tens of thousands of characters), then single characters; bounded in
+    # steps and in wall-clock time - the unshrunk case is a valid replay as well
+    import time
+    budget, deadline = 150, time.time() + 90
     changed = True
-    while changed and budget > 0:
+    while changed and budget > 0 and time.time() < deadline:
         changed = False
         for which in ("hay", "needle"):
             seq = hay if which == "hay" else needle
-            i = 0
-            while i < len(seq) and budget > 0:
-                cand = seq[:i] + seq[i + 1:]
-                budget -= 1
-                r = fails(cand, needle) if which == "hay" else fails(hay, cand)
-                if r is not None:
-                    if which == "hay":
-                        hay = cand
+            size = max(1, len(seq) // 2)
+            while size >= 1 and budget > 0 and time.time() < deadline:
+                i = 0
+                while i < len(seq) and budget > 0 and time.time() < deadline:
+                    cand = seq[:i] + seq[i + size:]
+                    budget -= 1
+                    r = fails(cand, needle) if which == "hay" else fails(hay, cand)
+                    if r is not None:
+                        if which == "hay":
+                            hay = cand
+                        else:
+                            needle = cand
+                        seq = cand
+                        best = r
+                        changed = True
                     else:
-                        needle = cand
-                    seq = cand
-                    best = r
-                    changed = True
-                else:
-                    i += 1
+                        i += size
+                if size == 1:
+                    break
+                size = max(1, size // 2) if len(seq) > 64 else 1
     return best
 
 
